@@ -205,6 +205,25 @@ def gen_cases(tier, seed):
         if rng.random() < 0.5:
             kw['error'] = rng.choice(['L', 'M', 'Q', 'H'])
         cases.append(common.mk(parts, tag='multi', **kw))
+    # degenerate parts at a capacity boundary: an int 0 part, an empty str/bytes part (each still is content /
+    # a segment), a one-part list - with the rest of the list exactly filling the version
+    for v in oracle.MICRO + [1, 2, 9, 10, 26, 27, 40]:
+        for lv in oracle.levels_of(v):
+            for mode in ('numeric', 'alphanumeric', 'byte'):
+                n = gen.max_chars(v, lv, mode)
+                if not n or n < 2:
+                    continue
+                kw = {'error': lv} if lv else {}
+                if not isinstance(v, str):
+                    kw['micro'] = False
+                kw['boost_error'] = False
+                body = gen.content_for_bits(mode, n)
+                for parts in ([body, 0], [0, body], [body[:-1], 0], [body, ''], ['', body], [body, b''], [body],
+                              [body[:-1], (0, None)], [body[:n // 2], '', body[n // 2:]]):
+                    cases.append(common.mk(parts, tag='degenerate-part', b=[str(v), lv, mode, 'degenerate'], **kw))
+                    if rng.random() < 0.3:
+                        cases.append(common.mk(parts, tag='degenerate-part', b=[str(v), lv, mode, 'degenerate-req'],
+                                               **dict(kw, version=v)))
     if tier == 'thorough':
         for n in range(1, 7090, 37):
             cases.append(common.mk(gen.content_for_bits('numeric', n), tag='stride', error='L'))
